@@ -8,6 +8,7 @@ import (
 	"crypto/sha512"
 	"encoding/hex"
 	"encoding/json"
+	"fmt"
 	"math/big"
 	"os"
 	"sync"
@@ -128,6 +129,115 @@ func c11Type1(c *h.Ctx, n int) {
 		if tA == nil || !bytes.Equal(tA, tB) || !bytes.Equal(tA, tA2) || !bytes.Equal(tA, want) {
 			det["tokenA"], det["tokenB"], det["want"] = h.Hex(tA), h.Hex(tB), h.Hex(want)
 			c.Violation("the finalized token is identical under every blind and on every run (and equals type||nonce||SHA-256(challenge)||key id||F(k, input))", det)
+		}
+	}
+}
+
+// c11OddBlinds: blind encodings outside the honest range (other lengths, values >= the group order, zero). Whatever the
+// decoder makes of them: no panic, the same outcome on every run, and a token that does come out is THE token.
+func c11OddBlinds(c *h.Ctx) {
+	sk, _ := oprf.DeriveKey(oprf.SuiteP384, oprf.VerifiableMode, rnd(c, 32), nil)
+	iss := type1.NewBasicPrivateIssuer(sk)
+	chal, nonce, kid := rnd(c, 20), rnd(c, 32), iss.TokenKeyID()
+	auth, _ := oprf.NewVerifiableServer(oprf.SuiteP384, sk).FullEvaluate(cat(u16b(1), nonce, sha256sum(chal), kid))
+	want := tokenWant(c, 1, nonce, chal, kid, auth)
+	ord := orderP384.Bytes()
+	ordP1 := new(big.Int).Add(orderP384, big.NewInt(1)).Bytes()
+	for _, b := range [][]byte{nil, {}, {1}, make([]byte, 48), make([]byte, 47), cat(make([]byte, 47), []byte{1}), cat([]byte{0}, make([]byte, 47), []byte{1}), ord, ordP1, bytesFF(48), bytesFF(49), rnd(c, 96)} {
+		var tok [2][]byte
+		var errs [2]bool
+		pan, msg := h.Protect(func() {
+			for run := 0; run < 2; run++ {
+				st, err := type1.NewBasicPrivateClient().CreateTokenRequestWithBlind(chal, nonce, kid, iss.TokenKey(), clone(b))
+				errs[run] = err != nil
+				if err != nil {
+					continue
+				}
+				resp, err := iss.Evaluate(st.Request())
+				if err != nil {
+					continue
+				}
+				if t, err := st.FinalizeToken(resp); err == nil {
+					tok[run] = t.Marshal()
+				}
+			}
+		})
+		c.Count("type1:odd-blind-encodings", 2, h.Hex(b))
+		det := map[string]any{"type": 1, "blind": h.Hex(b), "panic": msg}
+		if pan {
+			// blinds longer than a scalar make circl's decoder slice out of range: a caller error outside C11 (blinds are
+			// scalars; C03 is about PEER bytes) — observed, not judged
+			c.Count("type1:odd-blind-encodings:panics-on-overlong-blind", 1, h.Hex(b))
+			if len(b) <= 48 {
+				c.Violation("request creation with a supplied blind of at most scalar length panics", det)
+			}
+		} else if errs[0] != errs[1] || !bytes.Equal(tok[0], tok[1]) {
+			c.Violation("request creation with a fixed blind is a pure function of its arguments", det)
+		} else if tok[0] != nil && !bytes.Equal(tok[0], want) {
+			c.Violation("the finalized token is identical under every blind", det)
+		}
+	}
+	sk5, _ := oprf.DeriveKey(oprf.SuiteRistretto255, oprf.VerifiableMode, rnd(c, 32), nil)
+	iss5 := type5.NewBatchedPrivateIssuer(sk5)
+	kid5 := iss5.TokenKeyID()
+	nonces := [][]byte{rnd(c, 32), rnd(c, 32)}
+	good := scalarBytes(c, group.Ristretto255)
+	var want5 [][]byte
+	for _, n := range nonces {
+		a, _ := oprf.NewVerifiableServer(oprf.SuiteRistretto255, sk5).FullEvaluate(cat(u16b(5), n, sha256sum(chal), kid5))
+		want5 = append(want5, tokenWant(c, 5, n, chal, kid5, a))
+	}
+	ordR := make([]byte, 32)
+	for i, x := range orderRistretto.Bytes() {
+		ordR[len(orderRistretto.Bytes())-1-i] = x
+	}
+	for _, bl := range [][][]byte{nil, {}, {good}, {good, nil}, {good, make([]byte, 32)}, {good, ordR}, {good, bytesFF(32)}, {good, good[:31]}, {good, cat(good, []byte{0})}, {good, good, good}} {
+		var tok [2][][]byte
+		var errs [2]bool
+		pan, msg := h.Protect(func() {
+			for run := 0; run < 2; run++ {
+				var cp [][]byte
+				for _, x := range bl {
+					cp = append(cp, clone(x))
+				}
+				st, err := type5.NewBatchedPrivateClient().CreateTokenRequestWithBlinds(chal, nonces, kid5, iss5.TokenKey(), cp)
+				errs[run] = err != nil
+				if err != nil {
+					continue
+				}
+				resp, err := iss5.Evaluate(st.Request())
+				if err != nil {
+					continue
+				}
+				if ts, err := st.FinalizeTokens(resp); err == nil {
+					for _, t := range ts {
+						tok[run] = append(tok[run], t.Marshal())
+					}
+				}
+			}
+		})
+		c.Count("type5:odd-blind-lists", 2, fmt.Sprint(len(bl)))
+		det := map[string]any{"type": 5, "blinds": len(bl), "panic": msg}
+		if pan {
+			// fewer blinds than nonces: index out of range — a caller error outside C11, observed, not judged
+			c.Count("type5:odd-blind-lists:panics-on-short-list", 1, fmt.Sprint(len(bl)))
+			if len(bl) >= len(nonces) {
+				c.Violation("request creation with one blind per nonce panics", det)
+			}
+			continue
+		}
+		same := errs[0] == errs[1] && len(tok[0]) == len(tok[1])
+		for i := 0; same && i < len(tok[0]); i++ {
+			same = bytes.Equal(tok[0][i], tok[1][i])
+		}
+		if !same {
+			c.Violation("request creation with fixed blinds is a pure function of its arguments", det)
+		}
+		for i := range tok[0] {
+			if i >= len(want5) || !bytes.Equal(tok[0][i], want5[i]) {
+				c.Violation("the finalized tokens are identical under every blind", det)
+				break
+			}
 		}
 	}
 }
@@ -449,6 +559,7 @@ func runC11(c *h.Ctx) {
 		n1, n2 = 600, 30
 	}
 	c11Type1(c, n1)
+	c11OddBlinds(c)
 	c11Type5(c, n1)
 	c11Type2(c, n2)
 	c11Concurrent(c)
